@@ -80,20 +80,23 @@ type diagnosticInSourcePackage struct {
 	pkg     sourceaddrs.RemotePackage
 }
 
-// inRemoteSourcePackage modifies the reciever in-place so that all of the
-// diagnostics will have their source filenames (if any) interpreted as
-// sub-paths within the given source package.
+// inRemoteSourcePackage wraps all of the diagnostics so that they will have
+// their source filenames (if any) interpreted as sub-paths within the given
+// source package.
 //
-// For convenience, returns the same diags slice whose backing array has now
-// been modified with different diagnostics.
+// The receiver is left as it is; the result is a new slice.
 func (diags Diagnostics) inRemoteSourcePackage(pkg sourceaddrs.RemotePackage) Diagnostics {
+	// The wrapped diagnostics go into a new slice: the given one belongs to
+	// the dependency finder that returned it, which may return it again for
+	// another package.
+	ret := make(Diagnostics, len(diags))
 	for i, diag := range diags {
-		diags[i] = diagnosticInSourcePackage{
+		ret[i] = diagnosticInSourcePackage{
 			wrapped: diag,
 			pkg:     pkg,
 		}
 	}
-	return diags
+	return ret
 }
 
 var _ Diagnostic = diagnosticInSourcePackage{}
